@@ -5,29 +5,157 @@ import Abyss.Inv
 namespace Abyss
 namespace Spec
 
-theorem get_put_self (m : Map) (k v : List Nat) : get (put m k v) k = some v := by sorry
-theorem get_put_ne (m : Map) (k k' v : List Nat) (h : k' ≠ k) : get (put m k v) k' = get m k' := by sorry
-theorem get_del_self (m : Map) (k : List Nat) : get (del m k) k = none := by sorry
-theorem get_del_ne (m : Map) (k k' : List Nat) (h : k' ≠ k) : get (del m k) k' = get m k' := by sorry
-theorem nodup_empty : NodupKeys empty := by sorry
-theorem nodup_put (m : Map) (k v : List Nat) (h : NodupKeys m) : NodupKeys (put m k v) := by sorry
-theorem nodup_del (m : Map) (k : List Nat) (h : NodupKeys m) : NodupKeys (del m k) := by sorry
+theorem get_nil (k : List Nat) : get [] k = none := rfl
 
-theorem Equiv.refl (m : Map) (h : NodupKeys m) : Equiv m m := by sorry
-theorem Equiv.symm {m m' : Map} (h : Equiv m m') : Equiv m' m := by sorry
-theorem Equiv.trans {a b c : Map} (h : Equiv a b) (h' : Equiv b c) : Equiv a c := by sorry
+theorem get_cons (p : List Nat × List Nat) (m : Map) (k : List Nat) :
+    get (p :: m) k = if p.1 = k then some p.2 else get m k := by
+  unfold get
+  by_cases h : p.1 = k <;> simp [h]
+
+theorem del_nil (k : List Nat) : del [] k = [] := rfl
+
+theorem del_cons (p : List Nat × List Nat) (m : Map) (k : List Nat) :
+    del (p :: m) k = if p.1 = k then del m k else p :: del m k := by
+  unfold del
+  by_cases h : p.1 = k <;> simp [h]
+
+theorem get_del_self (m : Map) (k : List Nat) : get (del m k) k = none := by
+  induction m with
+  | nil => rfl
+  | cons p m ih =>
+    rw [del_cons]
+    by_cases h : p.1 = k
+    · simp [h, ih]
+    · simp [h, get_cons, ih]
+
+theorem get_del_ne (m : Map) (k k' : List Nat) (h : k' ≠ k) : get (del m k) k' = get m k' := by
+  induction m with
+  | nil => rfl
+  | cons p m ih =>
+    rw [del_cons]
+    by_cases hp : p.1 = k
+    · have : k ≠ k' := fun e => h e.symm
+      simp [hp, get_cons, ih, this]
+    · simp [hp, get_cons, ih]
+
+theorem get_put_self (m : Map) (k v : List Nat) : get (put m k v) k = some v := by
+  simp [put, get_cons]
+
+theorem get_put_ne (m : Map) (k k' v : List Nat) (h : k' ≠ k) : get (put m k v) k' = get m k' := by
+  have : k ≠ k' := fun e => h e.symm
+  simp [put, get_cons, this, get_del_ne m k k' h]
+
+theorem nodup_empty : NodupKeys empty := by
+  simp [NodupKeys, empty]
+
+theorem mem_keys_del {m : Map} {k x : List Nat} :
+    x ∈ (del m k).map Prod.fst ↔ x ∈ m.map Prod.fst ∧ x ≠ k := by
+  simp only [del, List.mem_map, List.mem_filter]
+  constructor
+  · rintro ⟨p, ⟨hp, hk⟩, rfl⟩
+    exact ⟨⟨p, hp, rfl⟩, by simpa using hk⟩
+  · rintro ⟨⟨p, hp, rfl⟩, hk⟩
+    exact ⟨p, ⟨hp, by simpa using hk⟩, rfl⟩
+
+theorem nodup_del (m : Map) (k : List Nat) (h : NodupKeys m) : NodupKeys (del m k) := by
+  unfold NodupKeys at *
+  exact List.Nodup.sublist (List.Sublist.map _ (List.filter_sublist)) h
+
+theorem nodup_put (m : Map) (k v : List Nat) (h : NodupKeys m) : NodupKeys (put m k v) := by
+  have h2 := nodup_del m k h
+  unfold NodupKeys at *
+  simp only [put, List.map_cons, List.nodup_cons]
+  refine ⟨?_, h2⟩
+  intro hm
+  exact (mem_keys_del.1 hm).2 rfl
+
+theorem get_eq_none_iff {m : Map} {k : List Nat} : get m k = none ↔ k ∉ m.map Prod.fst := by
+  induction m with
+  | nil => simp [get_nil]
+  | cons p m ih =>
+    rw [get_cons]
+    by_cases h : p.1 = k
+    · simp [h]
+    · have h' : ¬ k = p.1 := fun e => h e.symm
+      simp [h, h', ih]
+
+/-- under duplicate-free keys, membership of a pair is the same as looking it up -/
+theorem mem_iff_get {m : Map} (h : NodupKeys m) (k v : List Nat) :
+    (k, v) ∈ m ↔ get m k = some v := by
+  induction m with
+  | nil => simp [get_nil]
+  | cons p m ih =>
+    have hn : p.1 ∉ m.map Prod.fst ∧ NodupKeys m := by
+      simpa [NodupKeys, List.nodup_cons] using h
+    rw [get_cons, List.mem_cons, ih hn.2]
+    by_cases hp : p.1 = k
+    · have hg : get m k = none := get_eq_none_iff.2 (hp ▸ hn.1)
+      simp only [hp, if_true, hg]
+      constructor
+      · rintro (e | e)
+        · rw [← e]
+        · cases e
+      · intro e
+        left
+        cases p
+        simp at hp e
+        simp [hp, e]
+    · simp only [hp, if_false]
+      constructor
+      · rintro (e | e)
+        · exact absurd (by rw [← e]) hp
+        · exact e
+      · exact Or.inr
+
+theorem nodup_of_nodupKeys {m : Map} (h : NodupKeys m) : m.Nodup := by
+  unfold NodupKeys List.Nodup at *
+  exact List.Pairwise.of_map Prod.fst (fun a b hab e => hab (by rw [e])) h
+
+theorem Equiv.refl (m : Map) (h : NodupKeys m) : Equiv m m := ⟨h, h, fun _ => rfl⟩
+theorem Equiv.symm {m m' : Map} (h : Equiv m m') : Equiv m' m :=
+  ⟨h.2.1, h.1, fun k => (h.2.2 k).symm⟩
+theorem Equiv.trans {a b c : Map} (h : Equiv a b) (h' : Equiv b c) : Equiv a c :=
+  ⟨h.1, h'.2.1, fun k => (h.2.2 k).trans (h'.2.2 k)⟩
 /-- equivalent maps have the same number of entries -/
-theorem Equiv.len {m m' : Map} (h : Equiv m m') : len m = len m' := by sorry
-theorem Equiv.put {m m' : Map} (h : Equiv m m') (k v : List Nat) : Equiv (put m k v) (put m' k v) := by sorry
-theorem Equiv.del {m m' : Map} (h : Equiv m m') (k : List Nat) : Equiv (del m k) (del m' k) := by sorry
+theorem Equiv.len {m m' : Map} (h : Equiv m m') : len m = len m' := by
+  unfold Spec.len
+  apply List.Perm.length_eq
+  rw [List.perm_ext_iff_of_nodup (nodup_of_nodupKeys h.1) (nodup_of_nodupKeys h.2.1)]
+  rintro ⟨k, v⟩
+  rw [mem_iff_get h.1, mem_iff_get h.2.1, h.2.2 k]
+theorem Equiv.put {m m' : Map} (h : Equiv m m') (k v : List Nat) : Equiv (put m k v) (put m' k v) := by
+  refine ⟨nodup_put _ _ _ h.1, nodup_put _ _ _ h.2.1, fun k' => ?_⟩
+  by_cases hk : k' = k
+  · subst hk; rw [get_put_self, get_put_self]
+  · rw [get_put_ne _ _ _ _ hk, get_put_ne _ _ _ _ hk, h.2.2]
+theorem Equiv.del {m m' : Map} (h : Equiv m m') (k : List Nat) : Equiv (del m k) (del m' k) := by
+  refine ⟨nodup_del _ _ h.1, nodup_del _ _ h.2.1, fun k' => ?_⟩
+  by_cases hk : k' = k
+  · subst hk; rw [get_del_self, get_del_self]
+  · rw [get_del_ne _ _ _ hk, get_del_ne _ _ _ hk, h.2.2]
 /-- one call gives the same answer on equivalent maps and leads to equivalent maps -/
 theorem Equiv.step {m m' : Map} (h : Equiv m m') (op : Op) :
-    (step m op).2 = (step m' op).2 ∧ Equiv (step m op).1 (step m' op).1 := by sorry
+    (step m op).2 = (step m' op).2 ∧ Equiv (step m op).1 (step m' op).1 := by
+  cases op with
+  | put k v => exact ⟨rfl, h.put k v⟩
+  | get k => exact ⟨by simp [Spec.step, h.2.2 k], h⟩
+  | del k => exact ⟨by simp [Spec.step, h.2.2 k], h.del k⟩
+  | includes k => exact ⟨by simp [Spec.step, Spec.includes, h.2.2 k], h⟩
+  | len => exact ⟨by simp [Spec.step, h.len], h⟩
+  | isEmpty => exact ⟨by simp [Spec.step, Spec.isEmpty, h.len], h⟩
 /-- a whole history gives the same answers on equivalent maps -/
 theorem Equiv.run {m m' : Map} (h : Equiv m m') (ops : List Op) :
-    (run m ops).2 = (run m' ops).2 ∧ Equiv (run m ops).1 (run m' ops).1 := by sorry
+    (run m ops).2 = (run m' ops).2 ∧ Equiv (run m ops).1 (run m' ops).1 := by
+  induction ops generalizing m m' with
+  | nil => exact ⟨rfl, h⟩
+  | cons op ops ih =>
+    have hs := h.step op
+    have hr := ih hs.2
+    simp only [Spec.run]
+    exact ⟨by rw [hs.1, hr.1], hr.2⟩
 /-- read-only calls do not change the ideal map -/
-theorem step_readonly (m : Map) (op : Op) (h : op.isUpdate = false) : (step m op).1 = m := by sorry
+theorem step_readonly (m : Map) (op : Op) (h : op.isUpdate = false) : (step m op).1 = m := by
+  cases op <;> simp_all [Spec.step, Op.isUpdate]
 
 end Spec
 end Abyss
